@@ -9,7 +9,6 @@ import (
 	"context"
 	"encoding/json"
 	"fmt"
-	"os"
 	"strconv"
 	"strings"
 	"sync"
@@ -23,7 +22,6 @@ import (
 	"verif/vm"
 )
 
-func pending() bool { return os.Getenv("VERIF_PENDING") != "" }
 
 // ---- element counts of 2^31 and more (Ary counted by a Long or a VarLong)
 
@@ -59,9 +57,7 @@ func wideCounts(c *vm.Ctx) {
 			}
 			c.Eval(vm.HashStr("wide-count", kind, fmt.Sprint(n)), true)
 			if err == nil {
-				if strconv.IntSize == 64 || pending() {
-					c.Violation("decode/"+kind+"/hostile-array-count-accepted/does-not-fit-int", fmt.Sprintf("an element count of %d with 3 elements present was reported as success (%d elements decoded)", n, len(v)), wit())
-				}
+				c.Violation("decode/"+kind+"/hostile-array-count-accepted/does-not-fit-int", fmt.Sprintf("an element count of %d with 3 elements present was reported as success (%d elements decoded)", n, len(v)), wit())
 				continue
 			}
 			c.Cover("wide-count.rejected")
